@@ -332,6 +332,17 @@ fn judge_c05(env: &Env, case: &Case, out: &Outcome, injected: Option<u32>, fails
                 continue;
             }
             let want_buf = expected_buf(s.tag, s.buflen as usize);
+            if s.nested != 0 && !s.panic && !s.spurious {
+                match (s.nested, sr.woke) {
+                    (1, 0x11) => rep.class("spawned-thread-joined-a-thread-of-its-own"),
+                    (2, 0x14) => rep.class("spawned-thread-dropped-the-handle-of-a-finished-thread-of-its-own"),
+                    (_, 0x13) | (_, 0x15) => {
+                        env.ctx.inconclusive();
+                        rep.class("inconclusive-inner-thread");
+                    }
+                    (_, w) => fails.push(f("join|inner thread joined by a spawned thread returned a wrong value|u64", format!("{ctxt}: the closure spawned a thread returning a u64 and joined it; the join did not return that value (probe code {w:#x})"))),
+                }
+            }
             rep.class_if(s.join_in_print && s.panic, "panicked-thread-joined-inside-a-print-statement");
             rep.class_if(s.join_in_print && !s.panic, "joined-inside-a-print-statement");
             if s.stall_k > 0 {
@@ -352,7 +363,7 @@ fn judge_c05(env: &Env, case: &Case, out: &Outcome, injected: Option<u32>, fails
                 match (sr.join_class, s.panic) {
                     (1, true) => {
                         rep.class("panic-joined-none");
-                        rep.class_if(s.ty >= 9, "panic-joined-none:niche-carrying-result");
+                        rep.class_if((9..=12).contains(&s.ty), "panic-joined-none:niche-carrying-result");
                     }
                     (2, false) => {
                         if sr.vhash != wh || sr.vlen != wl {
@@ -362,7 +373,8 @@ fn judge_c05(env: &Env, case: &Case, out: &Outcome, injected: Option<u32>, fails
                         rep.class_if(s.ty == 0, "zero-sized-result");
                         rep.class_if(s.ty == 5, "4KiB-result");
                         rep.class_if(s.ty == TY_VEC, "heap-owning-result");
-                        rep.class_if(s.ty >= 9, "niche-carrying-result");
+                        rep.class_if((9..=12).contains(&s.ty), "niche-carrying-result");
+                        rep.class_if(s.ty == 13, "align-16-result");
                         if s.ty != 0 {
                             nonunit_joined = true;
                         }
@@ -776,7 +788,7 @@ fn spec_strategy(c06: bool) -> impl Strategy<Value = Spec> {
         (-40_000i64..200_000, prop::bool::weighted(0.12), 200_000u32..1_500_000, prop::bool::weighted(0.10), 1u8..=2, 200_000u32..700_000),
     )
         .prop_map(|(ty, panic, disp, inline, cd, pd, buflen, tag, (jitter, spurious, sp_delay, stall, stall_k, stall_ns))| {
-            let mut s = Spec { ty, panic, disp, inline, child_delay: cd, parent_delay: pd, buflen, tag, spurious: false, stall_ns: 0, stall_k: 0, reuse: false, join_in_print: false };
+            let mut s = Spec { ty, panic, disp, inline, child_delay: cd, parent_delay: pd, buflen, tag, spurious: false, stall_ns: 0, stall_k: 0, reuse: false, join_in_print: false, nested: 0 };
             if spurious && !panic && (disp == DISP_JOIN || disp == DISP_KEEP_END) {
                 // the thread sleeps first so that the joiner is parked when the spurious wake-up arrives
                 s.spurious = true;
@@ -847,7 +859,7 @@ fn fault_case_strategy(builds: Vec<&'static str>) -> impl Strategy<Value = Case>
 }
 
 fn sp(ty: u8, panic: bool, disp: u8, inline: bool, cd: Delay, pd: Delay, buflen: u16, tag: u64) -> Spec {
-    Spec { ty, panic, disp, inline, child_delay: cd, parent_delay: pd, buflen, tag, spurious: false, stall_ns: 0, stall_k: 0, reuse: false, join_in_print: false }
+    Spec { ty, panic, disp, inline, child_delay: cd, parent_delay: pd, buflen, tag, spurious: false, stall_ns: 0, stall_k: 0, reuse: false, join_in_print: false, nested: 0 }
 }
 
 /// The four fixed small batches of the fault enumeration.
@@ -955,6 +967,22 @@ fn print_join_batch() -> Batch {
     Batch { specs }
 }
 
+/// Threads that spawn a thread of their own and join it (or drop its handle after it has finished) before they
+/// return; the outer threads are then joined / dropped by the main thread in every disposition.
+fn nested_batch() -> Batch {
+    let mut specs = Vec::new();
+    let mut n = 0u64;
+    for nested in [1u8, 2] {
+        for (ty, disp, inline) in [(2u8, DISP_JOIN, false), (0, DISP_JOIN, true), (8, DISP_KEEP_END, false), (13, DISP_DROP_LATER, false), (4, DISP_DROP_NOW, false)] {
+            let mut s = sp(ty, false, disp, inline, Delay::Spin(5_000), if disp == DISP_DROP_LATER { Delay::Sleep(1_500_000) } else { Delay::None }, 16, 0x6e00 + n);
+            s.nested = nested;
+            specs.push(s);
+            n += 1;
+        }
+    }
+    Batch { specs }
+}
+
 /// Pairs (A, B) of threads with the same result type, without the probe's quarantine: A's handle is dropped
 /// exactly when the k-th stalled free of A's epilogue has begun, B is spawned right afterwards (its join state is
 /// the next allocation of that size) and joined at once while it still works for 3 ms.
@@ -1009,6 +1037,19 @@ pub fn run(ctx: &Ctx) {
             if (k as u32 + 2) % ctx.nworkers == ctx.worker {
                 let case = Case { build: build.to_string(), strace: false, fault: None, batches: vec![reuse_batch(1), reuse_batch(2), reuse_batch(3), reuse_batch(1), reuse_batch(2), reuse_batch(3)] };
                 if !ctx.run_one("reuse", &case, || run_case(&env, &case)) {
+                    break;
+                }
+            }
+        }
+    }
+    // threads whose closure is itself the handle side of another thread
+    if let Some(case) = ctx.replay_case::<Case>("nested") {
+        ctx.run_one("nested", &case, || env.attempt(&case));
+    } else if !ctx.is_replay() {
+        for (k, build) in builds.iter().enumerate() {
+            if (k as u32 + 4) % ctx.nworkers == ctx.worker {
+                let case = Case { build: build.to_string(), strace: false, fault: None, batches: vec![nested_batch(), nested_batch()] };
+                if !ctx.run_one("nested", &case, || run_case(&env, &case)) {
                     break;
                 }
             }
